@@ -100,7 +100,9 @@ func (o *outPipe) Close() error                { return nil }
 // ---- editor model --------------------------------------------------------------
 
 var pieces = []string{"a", "b", " ", "x := 1", "é", "世界", "😀", "𝄞", "\n", "\r\n", "\n\n", "func f() {", "}", "\t", "// 注释", "\"s\"", "0",
-	"\uFFFD", "\uFEFF", "\u2028", "\u00A0", "e\u0301", "\u0000", "\U0010FFFF", "\u07FF\u0800", "\uFFFF"}
+	"\uFFFD", "\uFEFF", "\u2028", "\u00A0", "e\u0301", "\u0000", "\U0010FFFF", "\u07FF\u0800", "\uFFFF",
+	// the first and last code points of every UTF-8 length and of the UTF-16 surrogate-pair range
+	"\u007F", "\u0080", "\uD7FF", "\uE000", "\uFFFE", "\U00010000", "\U00010001", "\U0001FFFF", "\U00020000", "\U0010FFFE", "a\U00010000b"}
 
 func genText(t *tape.Tape, max int) string {
 	n := t.Draw(max + 1)
